@@ -341,8 +341,27 @@ def run_job(job, rec):
                     stalled = None
                     try:
                         from scipy.optimize import minimize as _min
-                        cost_ = getattr(E, "_DensityEstimator__hdi_cost")
+                        from inference.pdf.hdi import sample_hdi as _shdi
                         wgt_ = 0.2 / float(E(E.mode))
+
+                        def cost_(th_, fr_, pw_):
+                            # the documented cost, written out here from the estimator's public density and cumulative function
+                            v_ = np.array([th_[0] - 0.5 * th_[1], th_[0] + 0.5 * th_[1]])
+                            Pa_, Pb_ = E(v_)
+                            Fa_, Fb_ = E.cdf(v_)
+                            return (pw_ * (Pa_ - Pb_)) ** 2 + (Fb_ - Fa_ - fr_) ** 2
+
+                        # first: the documented search itself (start from the sample's interval, one Nelder-Mead run), replayed by the harness, must
+                        # return the very interval the library returned - otherwise the library did something else and this finding does not apply
+                        l_, u_ = (float(v) for v in _shdi(E.sample, fraction=f))
+                        cc_, ww_ = 0.5 * (l_ + u_), max(u_ - l_, f / float(E(E.mode)))
+                        if not l_ < float(E.mode) < u_:
+                            cc_ = float(E.mode)
+                        s0_ = np.array([[cc_, ww_], [cc_, 0.95 * ww_], [cc_ - 0.05 * ww_, ww_]])
+                        r0_ = _min(fun=cost_, x0=s0_[0], method="Nelder-Mead", options={"initial_simplex": s0_, "xatol": 1e-5 * ww_, "fatol": 1e-10}, args=(f, wgt_))
+                        same_ = abs((r0_.x[0] - 0.5 * r0_.x[1]) - a) <= 1e-9 * (b - a) and abs((r0_.x[0] + 0.5 * r0_.x[1]) - b) <= 1e-9 * (b - a)
+                        if not same_:
+                            raise LookupError("the library's interval is not the result of the documented search")
                         c0_, w0_ = 0.5 * (a + b), b - a
                         sx_ = np.array([[c0_, w0_], [c0_, 0.95 * w0_], [c0_ - 0.05 * w0_, w0_]])
                         r_ = _min(fun=cost_, x0=sx_[0], method="Nelder-Mead", options={"initial_simplex": sx_, "xatol": 1e-5 * w0_, "fatol": 1e-10}, args=(f, wgt_))
@@ -355,7 +374,7 @@ def run_job(job, rec):
                         stalled = None
                     if stalled is not None:
                         rec.violation("interval-search-stops-before-convergence",
-                                      f"{name}: interval({f:.4f}) = ({a!r}, {b!r}) holds {cb - ca!r}; the library's own search restarted from there lowers its cost "
+                                      f"{name}: interval({f:.4f}) = ({a!r}, {b!r}) holds {cb - ca!r}; the documented search restarted from there lowers its cost "
                                       f"from {stalled[0]:.3g} to {stalled[1]:.3g} and meets the content", ictx)
                         continue
                 rec.check(ok_mass, "interval-mass",
